@@ -29,7 +29,14 @@ using Bytes = std::vector<std::uint8_t>;
 // ---------------------------------------------------------------- RNG
 struct Rng {
   std::uint64_t s;
-  explicit Rng(std::uint64_t seed) : s(seed * 0x9E3779B97F4A7C15ULL + 0x1234567ULL) {}
+  // the seed is mixed, not just multiplied by the stream increment: otherwise
+  // adjacent seeds give the same stream shifted by one draw
+  explicit Rng(std::uint64_t seed) : s(mix(seed + 0x1234567ULL)) {}
+  static std::uint64_t mix(std::uint64_t z) {
+    z = (z ^ (z >> 30)) * 0xBF58476D1CE4E5B9ULL;
+    z = (z ^ (z >> 27)) * 0x94D049BB133111EBULL;
+    return z ^ (z >> 31);
+  }
   std::uint64_t next() {
     std::uint64_t z = (s += 0x9E3779B97F4A7C15ULL);
     z = (z ^ (z >> 30)) * 0xBF58476D1CE4E5B9ULL;
